@@ -8,7 +8,7 @@ claimed=$(python3 -c "import json;print(' '.join(c['property_id'] for c in json.
 git -C /repo diff --quiet || { echo "/repo has uncommitted changes"; exit 2; }
 for s in "${seeds[@]}"; do
   s=${s%/}; id=$(basename $s); prop=$(python3 -c "import json;print(json.load(open('$s/meta.json'))['breaks_property'])")
-  git -C /repo apply $s/patch.diff || { echo "$id APPLY-FAILED"; continue; }
+  git -C /repo apply "$PWD/$s/patch.diff" || { echo "$id APPLY-FAILED"; continue; }
   props=$prop; [ -n "$ALL" ] && props=$claimed
   hit=""
   for p in $props; do
